@@ -104,7 +104,8 @@ def candidate_sites(path):
 
 
 def sh(cmd, **kw):
-    return subprocess.run(cmd, stdout=subprocess.PIPE, stderr=subprocess.STDOUT, universal_newlines=True, **kw)
+    return subprocess.run(cmd, stdout=subprocess.PIPE, stderr=subprocess.STDOUT, universal_newlines=True,
+                          errors="replace", **kw)
 
 
 def run_mutant(args):
@@ -135,7 +136,7 @@ def run_mutant(args):
         for prop in PROPS.get(rel, []):
             try:
                 r = subprocess.run([sys.executable, os.path.join(HERE, "check.py"), prop, "--tier", "quick"], env=env, cwd=VERIF,
-                                   stdout=subprocess.PIPE, stderr=subprocess.DEVNULL, universal_newlines=True, timeout=1500)
+                                   stdout=subprocess.PIPE, stderr=subprocess.DEVNULL, universal_newlines=True, errors="replace", timeout=1500)
                 out = r.stdout
             except subprocess.TimeoutExpired:
                 rec["checks"][prop] = "timeout"
